@@ -234,11 +234,19 @@ Definition elt_ok_with (su l p : Q) (s : Z * float) : bool :=
   is_finite x && Qle_bool (Qred (Qabs (F2Q x - m))) (Qred (elt_tol_with su k m)).
 Definition elt_ok (l p : Q) (s : Z * float) : bool := elt_ok_with (step_ulp l p) l p s.
 
+(* search_space.py:77 computes the stop value `upper + 0.0000001` as ONE binary64 addition (round 4: modelled as written).
+   For |upper| >= 2^30 the addend is below half an ulp and the sum is `upper` again: the nudge that reaches np.arange is
+   `eff_eps upper`, which is 0 there (and a multiple of ulp(upper) elsewhere), not 1e-7. *)
+Definition eps_F : float := 0x1.ad7f29abcaf48p-24%float.
+Definition stop_F (u : float) : float := (u + eps_F)%float.
+Definition eff_eps (u : float) : Q := Qred (F2Q (stop_F u) - F2Q u).
+Definition nudge_absorbed (u : float) : bool := PrimFloat.eqb (stop_F u) u.
+
 Definition param_ok (t : float * float * float) (o : Z * list (Z * float)) : bool :=
   let '(lf, uf, pf) := t in
   let '(n_obs, samples) := o in
   let l := F2Q lf in let u := F2Q uf in let p := F2Q pf in
-  let n := Z.max 0 (grid_lenZ eps_impl l u p) in
+  let n := Z.max 0 (grid_lenZ (eff_eps uf) l u p) in
   let su := step_ulp l p in
   ((n_obs =? n)%Z || (borderline l u p && (Z.abs (n_obs - n) <=? 1)%Z))
   && forallb (fun s => (0 <=? fst s)%Z && (fst s <? n_obs)%Z && ((n <=? fst s)%Z || elt_ok_with su l p s)) samples.
